@@ -1191,6 +1191,19 @@ class World(object):
             if self.accepted_rerun:
                 self.report("C17", "not_stuck", "after an accepted rerun: nothing to do, workflow is %s" % st,
                             tags=tags, kf=kf)
+            if kf is None and st in ("running", "resuming") and not self.cancel_req and not self.pause_req \
+                    and not self.ever_paused and not self.ledger.runtime_errors:
+                # "all n are offered when nothing fails and no pause or cancel intervenes"
+                for x in self.ledger.execs:
+                    it = x.items
+                    if it is not None and x.state in ("offered", "running") and it.get("n") and not it["inflight"] \
+                            and len(set(it["offered"])) < it["n"] and all(v == "succeeded" for v in it["done"].values()):
+                        self.report("C12", "all_offered", "%s has offered %d of %d items, nothing failed, nothing is in "
+                                    "flight and nothing is offered" % (x.key(), len(set(it["offered"])), it["n"]))
+                for c in self.ledger.open_credits():
+                    if (self.p["tasks"].get(c.task) or {}).get("with") is not None and not c.cleanup:
+                        self.report("C12", "all_offered", "with-items task %s is due (status %s) but none of its items is "
+                                    "offered" % (c.task, st))
         if st == "paused":
             tstat = [t.get("status") for t in self.snap["state"]["sequence"]]
             cause = self.pause_req or self.ever_paused or bool(self.pending) or any(x in ("paused", "pending", "pausing") for x in tstat)
